@@ -20,7 +20,9 @@
 (*   "ok"   valid authority                                                  *)
 (*   "odd"  valid, but the authority is ended by ? or #, so the rest of the  *)
 (*          Location is query/fragment (path is not tracked afterwards)      *)
-(*   "bad"  not a valid authority: no request may be sent for such a URL     *)
+(*   "bad"  not a valid authority: the design refuses such a URL (an         *)
+(*          implementation that sends something anyway is still bound by the *)
+(*          safety side: no credentials, hop limit - the harness checks it)  *)
 (* The trust relation is THIS module's constant (same canonical host, or a   *)
 (* declared subdomain pair); it is the oracle of the conformance harness,    *)
 (* not fasthttp's isDomainOrSubdomainBytes.                                  *)
@@ -105,17 +107,19 @@ VARIABLES
   result,   \* "none", "ok", "toomany", "badurl"
   lastSt,   \* status of the redirect that produced the current request (0: first request)
   prev, last,     \* the two most recent requests sent
-  hops,     \* history: redirect responses issued (status, form, target, location)
+  hops,     \* history: redirect responses issued (status, form, target); Location(form, target, k) is its text
   sent      \* history: requests sent
 
 vars == <<sc, cur, pathOk, method, body, creds, nredir, phase, result, lastSt, prev, last, hops, sent>>
 
-Init ==
-  /\ sc \in [init : Inits, method : Methods, max : MaxSet]
-  /\ cur = sc.init /\ pathOk = TRUE
-  /\ method = sc.method /\ body = (IF HasBody(sc.method) THEN "yes" ELSE "no")
+InitSc(s) ==
+  /\ sc = s
+  /\ cur = s.init /\ pathOk = TRUE
+  /\ method = s.method /\ body = (IF HasBody(s.method) THEN "yes" ELSE "no")
   /\ creds = TRUE /\ nredir = 0 /\ phase = "send" /\ result = "none" /\ lastSt = 0
   /\ prev = NoReq /\ last = NoReq /\ hops = <<>> /\ sent = <<>>
+
+Init == \E s \in [init : Inits, method : Methods, max : MaxSet] : InitSc(s)
 
 PathOf(k, ok) == IF ok THEN "/d/r" \o ToString(k) ELSE "*"
 
@@ -162,9 +166,8 @@ RewriteBody(st, m, b) ==
 \* wrong relation
 RecvRedirectT(st, form, tgt, Trust(_, _)) ==
   /\ phase = "wait" /\ Len(hops) < MaxHops
-  /\ IF form \in HostForms THEN tgt \in Targets ELSE tgt = cur   \* a target only for forms naming a host
-  /\ hops' = Append(hops, [status |-> st, form |-> form, target |-> tgt,
-                           location |-> Location(form, tgt, Len(hops) + 1)])
+  /\ form \in HostForms \/ tgt = cur        \* a target is only meaningful for forms naming a host
+  /\ hops' = Append(hops, [status |-> st, form |-> form, target |-> tgt])
   /\ nredir' = nredir + 1
   /\ IF nredir' > sc.max
        THEN /\ result' = "toomany" /\ phase' = "done"
@@ -182,8 +185,8 @@ RecvRedirectT(st, form, tgt, Trust(_, _)) ==
 
 RecvRedirect(st, form, tgt) == RecvRedirectT(st, form, tgt, Trusted)
 
-Next == \/ Send \/ RecvFinal
-        \/ \E st \in Statuses, form \in Forms, tgt \in Targets \cup {cur} : RecvRedirect(st, form, tgt)
+Redirects == \E st \in Statuses, form \in Forms, tgt \in Targets \cup {cur} : RecvRedirect(st, form, tgt)
+Next == Send \/ RecvFinal \/ Redirects
 
 Spec == Init /\ [][Next]_vars
 
@@ -236,6 +239,8 @@ KeyTargets == {"same", "port", "sub", "subsub", "prefix", "suffix", "atevil", "o
 KeyStatuses == {302, 303, 307}
 KeyForms == {"abs", "noscheme", "rel"}
 KeyMethods == {"GET", "POST"}
+QuickInits == {"same", "sub"}
+OneInit == {"same"}
 \* one long chain for the fixed limit (16) of the Get / Post helpers
 LoopInits == {"same"}
 LoopTargets == {"sub"}
